@@ -38,7 +38,7 @@ def run(ctx):
             ctx.violation(f"numeric:{i['expr']}"[:300], {"expression": i["expr"], "witness": i["numeric_fail"]},
                           what=f"{i['numeric_fail'].get('what')}: {i['expr'][:120]} disagrees with matrix arithmetic")
     nok = [i for i in items if i["status"] == "ok"]
-    if len(nok) < 0.4 * max(1, len(items)):
+    if len(nok) < 0.4 * max(1, len([i for i in items if i["status"] != "regression"])):
         nerr = [i for i in items if i["status"] == "notex"]
         ctx.broken_obligation("tie", "c03-extraction", json.dumps([(i["expr"], i["detail"]) for i in nerr[:5]])[:1500])
     kinds = {}
